@@ -113,6 +113,24 @@ def emit_loop_control(tree):
           [dotted(a) for a in call.args] == ['config.root_dir', 'state', 'round_num', 'config.num_checkpoints_to_keep']
           and not call.keywords):
     raise Unsupported('checkpoint.save_checkpoint(config.root_dir, state, round_num, config.num_checkpoints_to_keep) expected')
+  # ORDER inside the round loop (fail-closed): sample, apply, save the checkpoint, then evaluate
+  def pos(pred, what):
+    idx = [i for i, st in enumerate(loop.body) if pred(st)]
+    if len(idx) != 1:
+      raise Unsupported(f'round loop: expected exactly one `{what}`')
+    return idx[0]
+  p_sample = pos(lambda st: isinstance(st, ast.Assign) and _is_name(st.targets[0], 'clients') and
+                 isinstance(st.value, ast.Call) and dotted(st.value.func) == 'client_sampler.sample', 'clients = client_sampler.sample()')
+  p_apply = pos(lambda st: isinstance(st, ast.Assign) and isinstance(st.value, ast.Call) and
+                dotted(st.value.func) == 'algorithm.apply' and [dotted(a) for a in st.value.args] == ['state', 'clients'] and
+                isinstance(st.targets[0], ast.Tuple) and _is_name(st.targets[0].elts[0], 'state'), 'state, _ = algorithm.apply(state, clients)')
+  p_save = loop.body.index(gsave)
+  p_eval = pos(lambda st: isinstance(st, ast.If) and _is_name(st.test, 'should_run_eval'), 'if should_run_eval')
+  if not p_sample < p_apply < p_save < p_eval:
+    raise Unsupported('round loop: expected the order sample, apply, save checkpoint, evaluate')
+  if fd.body.index(loop) > [i for i, st in enumerate(fd.body) if isinstance(st, ast.For) and isinstance(st.iter, ast.Call)
+                            and dotted(st.iter.func) == 'final_eval_fn_map.items'][0]:
+    raise Unsupported('final evaluation must follow the round loop')
   # final evaluation: eval_fn(state, round_num)
   fin = [s for s in fd.body if isinstance(s, ast.For) and isinstance(s.iter, ast.Call) and
          dotted(s.iter.func) == 'final_eval_fn_map.items']
@@ -122,6 +140,11 @@ def emit_loop_control(tree):
   if not (isinstance(m, ast.Assign) and _is_name(m.targets[0], 'metrics') and isinstance(m.value, ast.Call) and
           _is_name(m.value.func, 'eval_fn') and [dotted(a) for a in m.value.args] == ['state', 'round_num']):
     raise Unsupported('metrics = eval_fn(state, round_num) expected in the final evaluation')
+  wr = [n for n in ast.walk(fin[0]) if isinstance(n, ast.With)]
+  if not (len(wr) == 1 and isinstance(wr[0].items[0].context_expr, ast.Call) and
+          dotted(wr[0].items[0].context_expr.func) == 'tf.io.gfile.GFile' and
+          _is_name(wr[0].items[0].context_expr.args[0], 'metrics_path')):
+    raise Unsupported('with tf.io.gfile.GFile(metrics_path, ...) expected in the final evaluation')
   return '\n'.join([
       'Definition start_round_num (last : option Z) : Z :=',
       f'  match last with Some last_round_num => {some} | None => {none} end.',
